@@ -178,19 +178,19 @@ type Ctx struct {
 }
 
 type exh struct {
-	p         *Prog
-	g         *Grammar
-	param     map[*ssa.Parameter]*AV // context-insensitive fixpoint
-	ctxMemo   map[string][]*Ctx
-	deadMemo  map[*ssa.Function]bool
-	getterOf  map[*ssa.Function]*types.Var // ast method → the field it returns
-	depthCap  int
-	callDepth int         // nesting of module-callee evaluation (global recursion guard)
-	assumeNil []ssa.Value // values assumed nil while a phi edge is evaluated
+	p          *Prog
+	g          *Grammar
+	param      map[*ssa.Parameter]*AV // context-insensitive fixpoint
+	ctxMemo    map[string][]*Ctx
+	deadMemo   map[*ssa.Function]bool
+	getterOf   map[*ssa.Function]*types.Var // ast method → the field it returns
+	depthCap   int
+	callDepth  int                // nesting of module-callee evaluation (global recursion guard)
+	assumeNil  []ssa.Value        // values assumed nil while a phi edge is evaluated
 	assumeBool map[ssa.Value]bool // boolean results of inner calls fixed by the use site of the outer call
-	memo      map[evalKey]*AV
-	reachMemo map[reachKey]map[*ssa.BasicBlock]bool
-	callMemo  map[callKey]*AV
+	memo       map[evalKey]*AV
+	reachMemo  map[reachKey]map[*ssa.BasicBlock]bool
+	callMemo   map[callKey]*AV
 }
 
 type callKey struct {
